@@ -577,6 +577,22 @@ impl<'c> Tr<'c> {
                 scope.pop();
                 format!("{head}\n{k}")
             }
+            // `local.field = e;` on a record value the configuration gives an update for (key `.field=` in `methods`)
+            Stmt::Expr(Expr::Assign(a), Some(_))
+                if matches!(&*a.left, Expr::Field(f) if matches!(&f.member, syn::Member::Named(i)
+                    if self.cfg.methods.iter().any(|(k, _)| *k == format!(".{i}=")))) =>
+            {
+                let Expr::Field(f) = &*a.left else { unreachable!() };
+                let syn::Member::Named(i) = &f.member else { unreachable!() };
+                let key = format!(".{i}=");
+                let tpl = self.cfg.methods.iter().find(|(k, _)| *k == key).map(|(_, t)| *t).unwrap();
+                let Some(base) = place_name(&f.base).filter(|b| scope.contains(b)) else {
+                    return self.miss(format!("assignment `{}`", squash(&*a.left)));
+                };
+                let rhs = self.expr(&a.right);
+                let k = self.mst(rest, scope, ret, on_continue);
+                format!("let {base} := {} in\n{k}", fill(tpl, &base, &[rhs]))
+            }
             Stmt::Expr(Expr::Continue(_), _) => match on_continue {
                 Some(c) => c.to_string(),
                 None => self.miss("continue outside a loop".to_string()),
